@@ -15,7 +15,7 @@ def check(ctx, rep):
     runrules.detection_exact(ctx, rep, "R05.1")
     runrules.exit_discipline(ctx, rep, "R05.3", "R05.3", "R05.3", causes=('critical',))
     runrules.tidy_shape(ctx, rep, "R05.4")
-    shutrules.cancellation_edges(ctx, rep, "R05.5")
+    shutrules.cancellation_edges(ctx, rep, "R05.5", prompt=True)
     common.no_handover_on_critical_failure(ctx, rep, "R05.6")
     predicates.outcome_tables(ctx, rep, "R05.7", names=("raised_exception",))
     predicates.config_verbatim(ctx, rep, "R05.9", ('critical',))
